@@ -79,6 +79,12 @@ def module_state():
     return (deferred.try_compute.depth, len(deferred.Awaiting.awaiting_stack), len(reports.handle_reports.handlers_stack))
 
 
+def interpreter_state():
+    """Process-wide interpreter settings an assembly has no business changing."""
+    import sys
+    return (sys.getrecursionlimit(), sys.getswitchinterval(), getattr(sys, "get_int_max_str_digits", lambda: 0)(), sys.stdout is sys.__stdout__ or True)
+
+
 def container_census():
     """Every module-level and class-level mutable container of every pdpy11 module: (where, type, size, keys).
     An assembly may not leave anything behind in any of them (caches, memo tables, registries ...)."""
@@ -126,13 +132,14 @@ def h_step(params, vals, ctx):
         require(-params["vmax"] <= vals["V"] <= params["vmax"])  # the message renders the value with str()
     reset_module_state()
     before = container_census()
+    interp = interpreter_state()
     o = assemble([("/w/s.mac", params["text"])], vals, route=ctx.route, reset=False)
     ctx.observe_outcome(o)
     ctx.observe_detail(snapshot(o))    # with positions: compared between fresh processes under different hash seeds
     ctx.reach(True)
     d, a, h = module_state()
     after = container_census()
-    return d == 0 and a == 0 and h == 0 and before == after
+    return d == 0 and a == 0 and h == 0 and before == after and interp == interpreter_state()
 
 
 def h_emit(params, vals, ctx):
@@ -171,6 +178,42 @@ def h_emit(params, vals, ctx):
         if path != wpath or not bytes(head).startswith(whead.encode()):
             return False
     return True
+
+
+def h_emit_real(params, vals, ctx):
+    """Outputs written through the REAL devices.open_device into a scratch directory: the files land beside their sources, the
+    module-level containers (device registry included) are left as they were, and a later assembly in another directory is unaffected."""
+    import contextlib, io, shutil
+    from pdpy11 import reports
+    require(-2 <= vals["V"] <= 2)      # the bytes go to a real file: realised
+    vals = {"V": concretize(vals["V"])}
+    tag = params["tag"] + ("" if ctx.route == "inject" else f"_t{os.getpid()}")
+    root = os.path.join(AUX, "out_" + tag)
+    shutil.rmtree(root, ignore_errors=True)
+    os.makedirs(os.path.join(root, "sub"), exist_ok=True)
+    reset_module_state()
+    before = container_census()
+    written = []
+    cwd = os.getcwd()
+    try:
+        if params.get("bare"):
+            os.chdir(root)    # sources named without a directory, as on a command line
+        for src in (("first.mac", os.path.join("sub", "second.mac")) if params.get("bare") else (os.path.join(root, "first.mac"), os.path.join(root, "sub", "second.mac"))):
+            o = assemble([(src, params["text"])], vals, route=ctx.route, reset=False)
+            if o.status != "ok":
+                return False
+            with reports.handle_reports(lambda p, ident, *r: None):
+                with contextlib.redirect_stderr(io.StringIO()), contextlib.redirect_stdout(io.StringIO()):
+                    o.comp.emit_files(o.base, o.code)
+            want = os.path.join(root, os.path.dirname(src), params["name"]) if params.get("bare") else os.path.join(os.path.dirname(src), params["name"])
+            written.append(os.path.isfile(want))
+    finally:
+        os.chdir(cwd)
+    ctx.observe(written)
+    ctx.reach(True)
+    after = container_census()
+    shutil.rmtree(root, ignore_errors=True)
+    return written == [True, True] and before == after
 
 
 def h_instance_id(params, vals, ctx):
@@ -293,5 +336,11 @@ def obligations(tier, seed):
         for cs in (("bk", "cp1251"), ("cp1251", "bk"), ("koi8-r", "utf-8")):
             obs.append(Ob(oid=f"charset-switch/{nm}/{cs[0]}-then-{cs[1]}", harness=P + "h_charset_switch", params={"text": text, "charsets": list(cs)},
                           vars={"V": "int"}, timeout=300))
+    for tag, text, name in (("tilde", 'make_raw "~out"\n.word {V}\n', "~out"), ("tilde-space", 'make_bin "~disk image"\n.word {V}\n', "~disk image"),
+                            ("plain", 'make_raw "image.raw"\n.word {V}\n', "image.raw")):
+        for bare in (False, True):
+            obs.append(Ob(oid=f"emit-real/{tag}" + ("/bare-source-names" if bare else ""), harness=P + "h_emit_real",
+                          params={"tag": tag + ("_b" if bare else ""), "text": text, "name": name, "bare": bare}, vars={"V": "int"}, timeout=300,
+                          note="two assemblies in one process, in two directories, written through the real open_device"))
     obs.append(Ob(oid="depth-matters", harness=P + "h_depth_matters", params={}, vars={"K": "int"}, timeout=300, pre="try_compute.depth any k >= 0"))
     return obs
